@@ -2,6 +2,7 @@ import Rawr.Proofs.RustTextAgree_SetFen
 import Rawr.Proofs.RustImpAgree_MakeMove
 import Rawr.Proofs.RustImpAgree_MoveGen
 import Rawr.Proofs.FenStaged
+import Rawr.Proofs.UciMoves
 /-!
 # uci/moves.rs, uci/position.rs regenerated from the Rust source agree with the model (`applyToken`, `applyTokens`,
 `doPosition` of Rawr/Model/Uci.lean)
@@ -123,9 +124,12 @@ theorem applyToken_pos (pos : Position) (hist : List BB) (t : List Char) (r : Po
       injection h with h
       exact ⟨m, hmem, by rw [← h]; exact hk⟩
 
-theorem moves_loop1_eq (Inv : Position → Prop) (hI : ∀ p, Inv p → MovesOnBoard p)
-    (hS : ∀ p m np, Inv p → m ∈ legalMoves p → p.makemove m true = some np → Inv np) :
-    ∀ (toks : List (List Char)) (pos : Position) (hist : List BB) (out : List String), Inv pos →
+/-- the loop of `moves` against `applyTokens`, for a family `G n` of invariants indexed by the number of tokens still to
+be applied (`G (n+1) p` gives `G n` of the position after a legal move and of `p` itself). -/
+theorem moves_loop1_ix (G : Nat → Position → Prop) (hI : ∀ n p, G (n + 1) p → MovesOnBoard p)
+    (hM : ∀ n p, G (n + 1) p → G n p)
+    (hS : ∀ n p m np, G (n + 1) p → m ∈ legalMoves p → p.makemove m true = some np → G n np) :
+    ∀ (toks : List (List Char)) (pos : Position) (hist : List BB) (out : List String), G toks.length pos →
       R.moves_loop1 toks pos hist out =
         (applyTokens toks pos hist.reverse out).map fun r => (r.1, r.2.1.reverse, r.2.2) := by
   intro toks
@@ -135,30 +139,39 @@ theorem moves_loop1_eq (Inv : Position → Prop) (hI : ∀ p, Inv p → MovesOnB
     intro pos hist out hinv
     unfold applyTokens
     simp only [R.moves_loop1, List.forIn_cons] at ih ⊢
-    rw [moves_loop1_step_eq t pos hist out (hI pos hinv)]
+    rw [moves_loop1_step_eq t pos hist out (hI _ pos hinv)]
     cases ha : applyToken pos hist.reverse t with
     | none => rfl
     | some r =>
       obtain ⟨p', h', o⟩ := r
-      have hinv' : Inv p' := by
+      have hinv' : G ts.length p' := by
         rcases applyToken_pos pos hist.reverse t _ ha with h | ⟨m, hm, hmk⟩
-        · simp only at h; rw [h]; exact hinv
-        · exact hS pos m p' hinv hm hmk
+        · simp only at h; rw [h]; exact hM _ _ hinv
+        · exact hS _ pos m p' hinv hm hmk
       simp only [Option.map_some, bind, Option.bind_some]
       have := ih p' h'.reverse (out ++ o) hinv'
       rw [List.reverse_reverse] at this
       exact this
 
+/-- **`uci::moves::moves`** for an indexed family of invariants (see `moves_loop1_ix`). -/
+theorem agree_moves_ix (G : Nat → Position → Prop) (hI : ∀ n p, G (n + 1) p → MovesOnBoard p)
+    (hM : ∀ n p, G (n + 1) p → G n p)
+    (hS : ∀ n p m np, G (n + 1) p → m ∈ legalMoves p → p.makemove m true = some np → G n np)
+    (toks : List (List Char)) (pos : Position) (hist : List BB) (hinv : G toks.length pos) :
+    R.moves toks pos hist =
+      (applyTokens toks pos hist.reverse []).map fun r => (([] : List (List Char)), r.1, r.2.1.reverse, r.2.2) := by
+  unfold R.moves
+  simp only [moves_loop1_ix G hI hM hS toks pos hist [] hinv, bind, pure]
+  cases applyTokens toks pos hist.reverse [] <;> rfl
+
 /-- **`uci::moves::moves`** (applying the tokens of `position .. moves ..` / `moves ..`), for every invariant of
-positions that makes the legal moves on-board and is preserved by legal moves (e.g. `ValidPos`). -/
+positions that makes the legal moves on-board and is preserved by legal moves. -/
 theorem agree_moves (Inv : Position → Prop) (hI : ∀ p, Inv p → MovesOnBoard p)
     (hS : ∀ p m np, Inv p → m ∈ legalMoves p → p.makemove m true = some np → Inv np)
     (toks : List (List Char)) (pos : Position) (hist : List BB) (hinv : Inv pos) :
     R.moves toks pos hist =
-      (applyTokens toks pos hist.reverse []).map fun r => (([] : List (List Char)), r.1, r.2.1.reverse, r.2.2) := by
-  unfold R.moves
-  simp only [moves_loop1_eq Inv hI hS toks pos hist [] hinv, bind, pure]
-  cases applyTokens toks pos hist.reverse [] <;> rfl
+      (applyTokens toks pos hist.reverse []).map fun r => (([] : List (List Char)), r.1, r.2.1.reverse, r.2.2) :=
+  agree_moves_ix (fun _ => Inv) (fun _ => hI) (fun _ _ h => h) (fun _ => hS) toks pos hist hinv
 
 /-! ## uci/position.rs -/
 theorem fenBoard_frc (ar : Arith) (cs : List Char) : ∀ (p : Position) (idx : Nat) (r : Position × Nat),
@@ -240,135 +253,80 @@ theorem setFen_frc (ar : Arith) (frc : Bool) (fen : List Char) (p : Position)
   unfold setFen at h
   split at h <;> exact setFenCore_frc ar frc _ p h
 
-theorem dropWhile_congr {α} (p q : α → Bool) : ∀ l : List α, (∀ x ∈ l, p x = q x) → l.dropWhile p = l.dropWhile q := by
-  intro l
-  induction l with
-  | nil => intro _; rfl
-  | cons a l ih =>
-    intro h
-    simp only [List.dropWhile_cons, h a (by simp)]
-    split
-    · exact ih (fun x hx => h x (by simp [hx]))
-    · rfl
-
-/-- `str::trim` (Unicode `White_Space`) is the model's "drop the blanks at both ends" on strings whose only
-white-space characters are blanks. -/
-theorem trim_eq (l : List Char) (h : ∀ c ∈ l, T.isWhitespace c = true → c = ' ') :
-    T.trim l = ((l.dropWhile (· == ' ')).reverse.dropWhile (· == ' ')).reverse := by
-  have hsp : T.isWhitespace ' ' = true := by decide
-  have key : ∀ m : List Char, (∀ c ∈ m, c ∈ l) → m.dropWhile T.isWhitespace = m.dropWhile (· == ' ') := by
-    intro m hm
-    apply dropWhile_congr
-    intro c hc
-    by_cases hw : T.isWhitespace c = true
-    · have := h c (hm c hc) hw
-      rw [this, hsp]; rfl
-    · have hne : c ≠ ' ' := by intro e; rw [e] at hw; exact hw hsp
-      simp [hw, hne]
-  unfold T.trim
-  rw [key l (fun c hc => hc)]
-  rw [key _ (fun c hc => by
-    have : c ∈ l.dropWhile (· == ' ') := by simpa using hc
-    exact (List.dropWhile_sublist _).subset this)]
-
-theorem foldl_fen_mem (toks : List (List Char)) : ∀ (init : List Char) (c : Char),
-    c ∈ toks.foldl (fun a b => a ++ b ++ [' ']) init → c ∈ init ∨ c = ' ' ∨ ∃ t ∈ toks, c ∈ t := by
-  induction toks with
-  | nil => intro init c h; left; simpa using h
-  | cons t ts ih =>
-    intro init c h
-    simp only [List.foldl_cons] at h
-    rcases ih _ _ h with h | h | ⟨t', ht', hc⟩
-    · simp only [List.mem_append, List.mem_singleton] at h
-      rcases h with (h | h) | h
-      · left; exact h
-      · right; right; exact ⟨t, by simp, h⟩
-      · right; left; exact h
-    · right; left; exact h
-    · right; right; exact ⟨t', by simp [ht'], hc⟩
-
 theorem setFen_nil (ar : Arith) (frc : Bool) : setFen ar frc [] = none := by
   cases ar <;> cases frc <;> decide
 
 /-- **`uci::position::position`** against the model's `doPosition` (which also contains the `pos.is_frc = is_frc` of the
-caller in listen.rs).  Hypotheses: the tokens contain no Unicode white space (Rust's `trim()` removes all of it, the
-model only blanks — tokens of `split_ascii_whitespace` can contain U+000B, U+0085, U+00A0, ...), and `Inv` is an
-invariant of the positions accepted by `set_fen` as in `agree_moves`. -/
-theorem agree_position (Inv : Position → Prop) (hI : ∀ p, Inv p → MovesOnBoard p)
-    (hS : ∀ p m np, Inv p → m ∈ legalMoves p → p.makemove m true = some np → Inv np)
+caller in listen.rs), for a family `G n` of invariants as in `agree_moves_ix` that holds, with the number of move
+tokens, of the position `set_fen` accepts. -/
+theorem agree_position (G : Nat → Position → Prop) (hI : ∀ n p, G (n + 1) p → MovesOnBoard p)
+    (hM : ∀ n p, G (n + 1) p → G n p)
+    (hS : ∀ n p m np, G (n + 1) p → m ∈ legalMoves p → p.makemove m true = some np → G n np)
     (ar : Arith) (n : Nat) (s : UState) (hist0 : List BB) (toks : List (List Char))
-    (hws : ∀ t ∈ toks, ∀ c ∈ t, T.isWhitespace c = false)
-    (hfen : ∀ fen p, setFen ar s.pos.frc fen = some p → Inv p) :
+    (hfen : ∀ p, setFen ar s.pos.frc (positionArgs toks).1 = some p → G (positionArgs toks).2.length p) :
     (R.position (n + 2) ar toks s.pos hist0).map
         (fun r => (({ s with pos := { r.2.1 with frc := s.frc }, hist := r.2.2.1.reverse } : UState), r.2.2.2))
       = doPosition ar s toks := by
+  rw [doPosition_eq]
   -- the common tail: set_fen on the trimmed string, then the moves
-  have tail : ∀ (fen : List Char) (rest : List (List Char)), (∀ c ∈ fen, T.isWhitespace c = true → c = ' ') →
-      ((R.set_fen (n + 2) ar s.pos (T.trim fen)).bind fun r =>
+  have tail : ∀ (fen : List Char) (rest : List (List Char)),
+      (∀ p, setFen ar s.pos.frc (rustTrim fen) = some p → G rest.length p) →
+      ((R.set_fen (n + 2) ar s.pos (rustTrim fen)).bind fun r =>
         (R.moves rest r ([] ++ [r.hash])).bind fun r2 => some (r2.1, r2.2.1, r2.2.2.1, ([] : List String) ++ r2.2.2.2)).map
         (fun r => (({ s with pos := { r.2.1 with frc := s.frc }, hist := r.2.2.1.reverse } : UState), r.2.2.2))
-      = (match setFen ar s.pos.frc (((fen.dropWhile (· == ' ')).reverse.dropWhile (· == ' ')).reverse) with
+      = (match setFen ar s.pos.frc (rustTrim fen) with
           | none => none
           | some p =>
-            let p := { p with frc := s.pos.frc }
-            match applyTokens rest p [p.hash] [] with
+            match applyTokens rest { p with frc := s.pos.frc } [p.hash] [] with
             | none => none
             | some (p, hist, out) => some ({ s with pos := { p with frc := s.frc }, hist := hist }, out)) := by
     intro fen rest hf
-    rw [agree_set_fen, trim_eq fen hf]
-    cases hsf : setFen ar s.pos.frc (((fen.dropWhile (· == ' ')).reverse.dropWhile (· == ' ')).reverse) with
+    rw [agree_set_fen]
+    cases hsf : setFen ar s.pos.frc (rustTrim fen) with
     | none => rfl
     | some p =>
       have hfr : p.frc = s.pos.frc := setFen_frc ar _ _ p hsf
       have hp : ({ p with frc := s.pos.frc } : Position) = p := by rw [← hfr]
       simp only [Option.bind_some, hp]
-      rw [agree_moves Inv hI hS rest p _ (hfen _ p hsf)]
+      rw [agree_moves_ix G hI hM hS rest p _ (hf p hsf)]
       simp only [List.nil_append, List.reverse_cons, List.reverse_nil]
       cases applyTokens rest p [p.hash] [] with
       | none => rfl
       | some r => obtain ⟨p', h', o⟩ := r; simp
-  unfold R.position doPosition
+  unfold R.position
+  unfold positionArgs at hfen ⊢
   have e1 : str "startpos" = ['s', 't', 'a', 'r', 't', 'p', 'o', 's'] := by decide
   have e2 : str "fen" = ['f', 'e', 'n'] := by decide
   have e3 : str "moves" = ['m', 'o', 'v', 'e', 's'] := by decide
-  simp only [e1, e2, e3, bind, pure]
-  have hsp : ∀ c ∈ ['s', 't', 'a', 'r', 't', 'p', 'o', 's'], T.isWhitespace c = true → c = ' ' := by decide
+  simp only [e1, e2, e3, bind, pure] at hfen ⊢
+  simp only [] at tail
   cases toks with
   | nil =>
     have hn1 : ((none : Option (List Char)) == some ['s', 't', 'a', 'r', 't', 'p', 'o', 's']) = false := rfl
     have hn2 : ((none : Option (List Char)) == some ['f', 'e', 'n']) = false := rfl
     simp only [List.head?_nil, List.tail_nil, hn1, hn2, Bool.false_eq_true, if_false, Option.bind_some]
-    exact tail [] [] (by simp)
+    exact tail [] [] hfen
   | cons t rest =>
-    simp only [List.head?_cons, List.tail_cons]
+    simp only [List.head?_cons, List.tail_cons] at hfen ⊢
     by_cases h1 : t = ['s', 't', 'a', 'r', 't', 'p', 'o', 's']
     · have c1 : (some t == some ['s', 't', 'a', 'r', 't', 'p', 'o', 's']) = true := by rw [h1]; rfl
       have c1' : (t == ['s', 't', 'a', 'r', 't', 'p', 'o', 's']) = true := by rw [h1]; rfl
-      simp only [c1, c1', if_true, Option.bind_some, ← List.drop_one]
-      have := tail ['s', 't', 'a', 'r', 't', 'p', 'o', 's'] (rest.drop 1) hsp
+      simp only [c1, c1', if_true, Option.bind_some, ← List.drop_one] at hfen ⊢
+      have := tail ['s', 't', 'a', 'r', 't', 'p', 'o', 's'] (rest.drop 1) hfen
       set_option maxRecDepth 4000 in exact this
     · have c1 : (some t == some ['s', 't', 'a', 'r', 't', 'p', 'o', 's']) = false := by simpa using h1
       have c1' : (t == ['s', 't', 'a', 'r', 't', 'p', 'o', 's']) = false := by simpa using h1
-      simp only [c1, c1', Bool.false_eq_true, if_false]
+      simp only [c1, c1', Bool.false_eq_true, if_false] at hfen ⊢
       by_cases h2 : t = ['f', 'e', 'n']
       · have c2 : (some t == some ['f', 'e', 'n']) = true := by rw [h2]; rfl
         have c2' : (t == ['f', 'e', 'n']) = true := by rw [h2]; rfl
-        simp only [c2, c2', if_true, Option.bind_some]
-        refine tail _ _ ?_
-        intro c hc hw
-        rcases foldl_fen_mem _ _ _ hc with h | h | ⟨t', ht', hct⟩
-        · simp at h
-        · exact h
-        · have : t' ∈ t :: rest := by
-            have := (List.takeWhile_sublist (fun part => part != ['m', 'o', 'v', 'e', 's']) (l := rest)).subset ht'
-            simp [this]
-          rw [hws t' this c hct] at hw
-          cases hw
+        simp only [c2, c2', if_true, Option.bind_some] at hfen ⊢
+        exact tail _ _ hfen
       · have c2 : (some t == some ['f', 'e', 'n']) = false := by simpa using h2
         have c2' : (t == ['f', 'e', 'n']) = false := by simpa using h2
         simp only [c2, c2', Bool.false_eq_true, if_false, Option.bind_some, agree_set_fen]
-        have ht : T.trim [] = [] := rfl
-        simp only [ht, List.dropWhile_nil, List.reverse_nil, setFen_nil, Option.bind_none, Option.map_none]
+        have ht : rustTrim [] = [] := rfl
+        simp only [ht, setFen_nil, Option.bind_none, Option.map_none]
 
 /-! non-vacuity: the regenerated functions compute -/
 example : ((R.moves ["e2e4".toList, "zzzz".toList] Gen.startpos [Gen.startpos.hash]).map fun r => (r.2.2.1.length, r.2.2.2))
